@@ -81,6 +81,7 @@ func genTStep(rt *rapid.T, nc int, hostile bool) TStep {
 		if rapid.IntRange(0, 5).Draw(rt, "ou") == 0 {
 			st.U = rapid.IntRange(1, 3).Draw(rt, "u")
 		}
+		st.Tie = rapid.IntRange(0, 4).Draw(rt, "bindTie") == 0
 	case "TCPData":
 		st.K = rapid.IntRange(0, 2).Draw(rt, "k")
 		st.N = rapid.OneOf(rapid.IntRange(1, 64), rapid.IntRange(1, 70000)).Draw(rt, "n")
